@@ -197,6 +197,17 @@ func urlReplay(s *Summary, raw json.RawMessage) {
 			func() {
 				defer func() { mpan = recover() }()
 				route, ps, _ = r.Match("GET", req.URL.Path)
+				if attachOnly {
+					// more distinct URLs than the cache holds in between: the entry of this URL is evicted and comes back
+					for k := 0; k < 6; k++ {
+						r.Match("GET", fmt.Sprintf("/zz/1/2/3/%d", k))
+						r.Match("GET", req.URL.Path)
+						r.Match("GET", fmt.Sprintf("/zz/1/2/%d/4", k))
+						r.Match("GET", fmt.Sprintf("/zz/1/%d/3/4", k))
+						r.Match("GET", fmt.Sprintf("/zz/%d/2/3/4", k))
+						r.Match("GET", fmt.Sprintf("/zz/%d/%d/3/4", k, k))
+					}
+				}
 				route, ps, _ = r.Match("GET", req.URL.Path) // (and once more: from the cache, where there is one)
 			}()
 			if mpan != nil {
@@ -249,11 +260,13 @@ func urlNames(s *Summary, c *urlCase) {
 	// twice: every route on a path of its own, and all routes on ONE path with a method of their own (same name and same
 	// path registered again for another method is still "registered most recently under that name")
 	for _, samePath := range []bool{false, true} {
-		urlNamesRun(s, c, samePath)
+		urlNamesRun(s, c, samePath, false)
 	}
+	// ... and with a URL built for the name after every step (links are built while the application still registers)
+	urlNamesRun(s, c, false, true)
 }
 
-func urlNamesRun(s *Summary, c *urlCase, samePath bool) {
+func urlNamesRun(s *Summary, c *urlCase, samePath, buildBetween bool) {
 	methods := []string{"GET", "POST", "PUT", "PATCH", "DELETE", "OPTIONS", "HEAD", "TRACE", "CONNECT"}
 	r := rux.New()
 	paths := map[int]string{}
@@ -266,6 +279,9 @@ func urlNamesRun(s *Summary, c *urlCase, samePath bool) {
 		paths[op.Route] = p
 		if op.API == "Rename" {
 			made[op.Route].NamedTo(op.Name, r)
+			if buildBetween {
+				_ = r.BuildURL(op.Name)
+			}
 			continue
 		}
 		switch op.API {
@@ -283,6 +299,9 @@ func urlNamesRun(s *Summary, c *urlCase, samePath bool) {
 			made[op.Route] = rt
 		default:
 			fatal("unknown naming api %q", op.API)
+		}
+		if buildBetween {
+			_ = r.BuildURL(op.Name)
 		}
 	}
 	s.Compared++
